@@ -70,6 +70,9 @@ def run(check, prog):
     c11.xarray_map(check, prog)
     # forward() builds the scatterer through the model's template object
     c11.template_class(check, prog)
+    # forward(), the optics and the noise level all read their values through
+    # read_map: a placeholder must resolve to its own parameter, also beyond nine
+    c11.grammar(check, prog)
     # ... and `an invalid scatterer gives -inf` rests on the constructors refusing
     # exactly the invalid ones (rule shared with C20)
     c20.constructors(check, prog)
